@@ -631,6 +631,8 @@ def input_wall(cfg):
     if cfg.get("family", "tokamak") != "tokamak":
         return None
     w = E.default_wall(slanted=("many" if cfg.get("wall") == "many" else cfg.get("wall") == "slanted"), mirror=cfg.get("mirror", False))
+    if cfg.get("wall") == "limiter":
+        w = E.limiter_wall()
     if cfg.get("wall_clockwise"):
         w = w[::-1]
     k = int(cfg.get("wall_start", 0))      # the polygon may start at any of its vertices ...
@@ -645,6 +647,7 @@ def obs_C11(g, out):
 
     win = input_wall(g.cfg)
     out["haswall"] = 0 if win is None else 1
+    out["protruding"] = 1 if g.cfg.get("wall") == "limiter" else 0      # the wall cuts flux surfaces between the targets (a limiter)
     if win is None:
         return
     poly = np.array(win)
